@@ -239,6 +239,12 @@ class DataConnection(Connection, abc.ABC):
                 self._reader, self._writer = await asyncio.open_connection(
                     self.hostname, self.port)
 
+        except asyncio.CancelledError:
+            # The task making the connection was cancelled, nothing will use
+            # this connection: do not leave it behind in CONNECTING state
+            await self.disconnect(CloseReason.REQUESTED)
+            raise
+
         except (Exception, asyncio.TimeoutError) as exc:
             await self.disconnect(CloseReason.CONNECT_FAILED)
             raise ConnectionFailedError(f"{self.hostname}:{self.port} : failed to connect") from exc
